@@ -221,8 +221,25 @@ func (in *instr) objPkgPath(id *ast.Ident) (string, string) {
 	return obj.Pkg().Path(), obj.Name()
 }
 
+// knobConsts are package-level integer constants of rare that size buffers; every use is wrapped in
+// simrt.KnobInt so that a world can vary them per run (a constant too large for the slow path to run
+// is the classic blind spot). Outside a simulation, or when a world sets nothing, the constant stays.
+var knobConsts = map[string]bool{
+	"rare/pkg/extractor/batchers.ReadAheadBufferSize": true,
+}
+
 func (in *instr) replaceSeams() {
 	astutil.Apply(in.file, func(c *astutil.Cursor) bool {
+		if id, ok := c.Node().(*ast.Ident); ok {
+			if cn, ok := in.info.Uses[id].(*types.Const); ok && cn.Pkg() != nil && knobConsts[cn.Pkg().Path()+"."+cn.Name()] {
+				if _, isSel := c.Parent().(*ast.SelectorExpr); !isSel {
+					in.site(id.Pos(), "knob")
+					c.Replace(call(sel("simrt", "KnobInt"), strLit(cn.Pkg().Path()+"."+cn.Name()), ast.NewIdent(id.Name)))
+					return false
+				}
+			}
+			return true
+		}
 		se, ok := c.Node().(*ast.SelectorExpr)
 		if !ok {
 			return true
